@@ -86,7 +86,8 @@ def depfile_wiring(ctx):
              'emitted when deps are passed; make passes deps, runs the '
              'depfixer on the file, includes it optionally and registers it '
              'as a target (clean); ninja sets deps=gcc and depfile; one '
-             'suffix at all sites; all under the gcc deps flavor')
+             'suffix at all sites; all under the gcc deps flavor; one include '
+             'per object')
     repo = ctx.repo
     F = _facts(ctx)
     call = F.fn(CC + '._call')
